@@ -75,38 +75,40 @@ struct Ctx {
 };
 
 // ---- generator helpers (size independent; shrink towards the first/lowest choice)
-template <class T> static inline T rng(T lo, T hi) // inclusive; the full range of T is allowed
+// Every draw goes through ONE rapidcheck element type (long long).  rapidcheck replays the recorded draws by position while it
+// shrinks; when a shrunk value changes the control flow of a generator, a later position is re-used by a different draw: with a
+// single element type that re-use is well-typed (rapidcheck asserts on a type mismatch), and every helper re-validates the value
+// against ITS range (a replayed value may come from a draw with another range).
+static inline long long draw_ll(long long lo, long long hi) // inclusive, lo <= hi
 {
-        static_assert(std::is_integral<T>::value, "rng<T> needs an integral type");
-        if (sizeof(T) < 8) {
-                // do the arithmetic in 64 bits so that hi == max(T) does not wrap
-                long long l = (long long) lo, h = (long long) hi;
-                return (T) *rc::gen::resize(100, rc::gen::inRange<long long>(l, h + 1));
+        long long v;
+        if (hi == INT64_MAX) v = *rc::gen::resize(100, rc::gen::arbitrary<long long>());
+        else v = *rc::gen::resize(100, rc::gen::inRange<long long>(lo, hi + 1));
+        if (v < lo || v > hi) {
+                unsigned long long span = (unsigned long long) hi - (unsigned long long) lo + 1ull; // 0 means 2^64
+                unsigned long long off = (unsigned long long) v - (unsigned long long) lo;
+                v = (long long) ((unsigned long long) lo + (span ? off % span : off));
         }
-        if (std::is_signed<T>::value) {
-                if ((long long) hi == INT64_MAX) {
-                        long long v = *rc::gen::resize(100, rc::gen::arbitrary<long long>());
-                        return (T) (v < (long long) lo ? (long long) lo : v);
-                }
-                return (T) *rc::gen::resize(100, rc::gen::inRange<long long>((long long) lo, (long long) hi + 1));
-        }
-        if ((unsigned long long) hi == UINT64_MAX) {
-                unsigned long long v = *rc::gen::resize(100, rc::gen::arbitrary<unsigned long long>());
-                return (T) (v < (unsigned long long) lo ? (unsigned long long) lo : v);
-        }
-        return (T) *rc::gen::resize(100, rc::gen::inRange<unsigned long long>((unsigned long long) lo, (unsigned long long) hi + 1));
+        return v;
 }
 static inline uint64_t rng64(uint64_t lo, uint64_t hi)
 {
-        if (hi == UINT64_MAX) {
-                uint64_t v = *rc::gen::resize(100, rc::gen::arbitrary<uint64_t>());
-                return v < lo ? lo : v;
-        }
-        return *rc::gen::resize(100, rc::gen::inRange<uint64_t>(lo, hi + 1));
+        uint64_t span = hi - lo; // inclusive span - 1
+        if (span < (uint64_t) INT64_MAX) return lo + (uint64_t) draw_ll(0, (long long) span);
+        // wider than 2^63: draw 64 arbitrary bits and fold them into the range
+        uint64_t v = (uint64_t) *rc::gen::resize(100, rc::gen::arbitrary<long long>());
+        if (span == UINT64_MAX) return v;
+        return lo + v % (span + 1);
+}
+template <class T> static inline T rng(T lo, T hi) // inclusive; the full range of T is allowed
+{
+        static_assert(std::is_integral<T>::value, "rng<T> needs an integral type");
+        if (sizeof(T) == 8 && !std::is_signed<T>::value) return (T) rng64((uint64_t) lo, (uint64_t) hi);
+        return (T) draw_ll((long long) lo, (long long) hi);
 }
 static inline bool coin(int num = 1, int den = 2) { return rng<int>(0, den - 1) < num ? true : false; }
-template <class T> static inline T pick(std::initializer_list<T> l) { return *rc::gen::elementOf(std::vector<T>(l)); }
-template <class T> static inline T pickv(const std::vector<T> &v) { return *rc::gen::elementOf(v); }
+template <class T> static inline T pick(std::initializer_list<T> l) { return *(l.begin() + rng<size_t>(0, l.size() - 1)); }
+template <class T> static inline T pickv(const std::vector<T> &v) { return v[rng<size_t>(0, v.size() - 1)]; }
 // weighted choice: returns index
 static inline int weighted(std::initializer_list<int> w)
 {
@@ -123,7 +125,7 @@ static inline int weighted(std::initializer_list<int> w)
 static inline std::vector<uint8_t> bytes(size_t n)
 {
         // cheap: draw a 64-bit seed and expand (contents rarely matter bit by bit; shrinks to zeros)
-        uint64_t s = *rc::gen::resize(100, rc::gen::arbitrary<uint64_t>());
+        uint64_t s = rng64(0, UINT64_MAX);
         std::vector<uint8_t> v(n);
         uint64_t x = s;
         for (size_t i = 0; i < n; i++) {
